@@ -649,12 +649,13 @@ pub fn squeeze(s: &str) -> String {
     out
 }
 
-/// canonical selector-list text: one space around combinators, ", " between complex selectors
+/// canonical selector-list text: one space around combinators, ", " between complex selectors,
+/// at every nesting depth of selector pseudo arguments; strings and `[...]` are left alone
 pub fn canon_selector(s: &str) -> String {
     let s = squeeze(s);
     let mut out = String::new();
     let chars: Vec<char> = s.chars().collect();
-    let mut depth = 0i32;
+    let mut brackets = 0i32;
     let mut i = 0;
     let mut in_str: Option<char> = None;
     while i < chars.len() {
@@ -671,19 +672,36 @@ pub fn canon_selector(s: &str) -> String {
             continue;
         }
         match c {
+            '\\' if i + 1 < chars.len() => {
+                out.push(c);
+                out.push(chars[i + 1]);
+                i += 1;
+            }
             '"' | '\'' => {
                 in_str = Some(c);
                 out.push(c);
             }
-            '(' | '[' => {
-                depth += 1;
+            '[' => {
+                brackets += 1;
                 out.push(c);
             }
-            ')' | ']' => {
-                depth -= 1;
+            ']' => {
+                brackets -= 1;
                 out.push(c);
             }
-            ',' if depth == 0 => {
+            '(' if brackets == 0 => {
+                out.push(c);
+                while i + 1 < chars.len() && chars[i + 1] == ' ' {
+                    i += 1;
+                }
+            }
+            ')' if brackets == 0 => {
+                while out.ends_with(' ') {
+                    out.pop();
+                }
+                out.push(c);
+            }
+            ',' if brackets == 0 => {
                 while out.ends_with(' ') {
                     out.pop();
                 }
@@ -692,11 +710,11 @@ pub fn canon_selector(s: &str) -> String {
                     i += 1;
                 }
             }
-            '>' | '+' | '~' if depth == 0 => {
+            '>' | '+' | '~' if brackets == 0 => {
                 while out.ends_with(' ') {
                     out.pop();
                 }
-                if !out.is_empty() && !out.ends_with(", ") {
+                if !out.is_empty() && !out.ends_with(", ") && !out.ends_with('(') {
                     out.push(' ');
                 }
                 out.push(c);
